@@ -101,6 +101,7 @@ for k_, tiers in [(1, QT), (2, QT), (3, T)]:
 M("C03", "c03_m_ringitem_reorg", [RI + "on_chain_reorganization"], "RingItem with 0..=3 entries, 32-byte symbolic hashes, lc symbolic")
 M("C03", "c03_m_blockring_reorg", [BR + "on_chain_reorganization", RI + "on_chain_reorganization"], "ring of 4 slots holding 2/1/1/1 and 1/2/1/1 entries, every id >= 1, hash, lc, per-slot designation and tip pointer")
 M("C03", "c03_m_tx_wind_unwind", ["Transaction::on_chain_reorganization", "Slip::on_chain_reorganization"], "1..=2 inputs x 1..=2 outputs (thorough 0..=3 each), amounts (0 included) and 59-byte keys symbolic, one unrelated utxoset entry; wind and unwind")
+M("C03", "c03_unwind_full_before_revert", ["Blockchain::validate", "Blockchain::wind_chain", "Blockchain::unwind_chain"], "segments (2,1) and (3,2), every validity pattern; event order on every path", covers=2)
 M("C03", "c03_reorg_sequence", ["Blockchain::validate", "Blockchain::wind_chain", "Blockchain::unwind_chain"], "same universe as c04_machine", covers=4)
 # ============================================================================== C08
 PROPERTY_ASSUMPTIONS["C08"] = [
@@ -188,6 +189,7 @@ PROPERTY_ASSUMPTIONS["C16"] = [
     "inductive step: one selection round (get_blocks_to_fetch_per_peer) from an arbitrary state of one peer's queue that satisfies the invariant #Fetching <= batch size; batch size 1..=3; the invariant is re-established (P1), so the bound holds along every history of rounds",
     "the queue is given sorted by strictly increasing id, so the stable sort inside the round is modelled as the identity (equal ids with hash tie-break are outside the claim); other operations (announcements, mark_as_failed / fetched, remove_entry) and liveness over unbounded histories are outside this revision's claim",
 ]
+M("C16", "c16_mark_as_failed_step", ["BlockchainSyncState::mark_as_failed"], "queues of 1..=3 entries, ids (equal ids allowed) and 32-byte hashes symbolic, every status pattern", covers=3)
 M("C16", "c16_select_step", ["saito_core::core::consensus::blockchain_sync_state::BlockchainSyncState::get_blocks_to_fetch_per_peer"],
   "queues of 1..=3 entries (thorough 4): every status pattern (4^n), ids, retry counters (full u32) and batch size symbolic; ~14 clauses per path", covers=3)
 
@@ -237,3 +239,15 @@ M("C02", "c02_tx_no_mint", ["Transaction::generate_total_fees", "Transaction::va
   "user types Normal / GoldenTicket / Vip; (inputs, outputs) in {(1,2),(2,2),(1,3)} (thorough up to 3 x 4); every amount and slip type symbolic; totals compared in 128-bit arithmetic", covers=3)
 M("C02", "c02_cv_fee_accounting", ["Block::generate_consensus_values (async body, the fee/size accounting loop up to the parent lookup)", "Transaction::get_serialized_size"],
   "blocks of 1..=2 transactions, every type (9^n) and fee symbolic", covers=2)
+
+# ============================================================================== C11
+PROPERTY_ASSUMPTIONS["C11"] = [
+    "single-input, single-handler fragment (engine M): each obligation explores one handler with the peer-controlled input symbolic; sequences of messages, interleavings with honest traffic, rate limiting over time, stalls and 'state used by honest peers is unaffected' are outside the claim",
+    "a panic site is reported when it is an assertion / unreachable / explicit panic in the encoded code, or an unwrap of a value that does not come from an uninterpreted callee; unwraps of uninterpreted callee results are not reported (their None/Err may be impossible)",
+    "environment answers that a remote peer can drive are modelled as inputs: peer lookup result and the peer's key state (ghost request), Block::deserialize_from_net / Block::generate verdicts on a fetched buffer (verify_block)",
+]
+M("C11", "c11_routing_dispatch", ["RoutingThread::process_incoming_message (async body)"], "a message of every one of the 15 types; all paths of the dispatch")
+M("C11", "c11_handshake_response_total", ["Peer::handle_handshake_response (async body)"], "arbitrary peer state (status, challenge, known key or none, static config or none) and arbitrary response; ~220 paths")
+M("C11", "c11_ghost_request_any_peer", ["RoutingThread::process_ghost_chain_request (async body)"], "request from an unknown peer, a peer without a public key yet, and a handshaked peer")
+M("C11", "c11_verify_block_total", ["VerificationThread::verify_block (async body)"], "buffer that fails to decode / decodes and fails Block::generate / decodes and generates; id and hash symbolic")
+M("C11", "c11_gt_payload", ["Mempool::add_golden_ticket (async body)", "GoldenTicket::deserialize_from_net"], "GoldenTicket-typed transaction with a data field of every length 0..=200")
